@@ -35,6 +35,7 @@ Slots == 1..3
 NoObj == [st |-> "none"]
 RawObj == [st |-> "raw"]      \* allocated, content not known to the specification (failed / arbitrary decode)
 ZeroObj == [st |-> "zero"]    \* a structure after ASN_STRUCT_RESET: all zero
+BadObj == [st |-> "bad"]      \* denotes no value: a mandatory component is absent or a CHOICE has no alternative selected
 Obj(v) == [st |-> "val", v |-> v, sess |-> TRUE, seen |-> FALSE]     \* holds the session's value
 ObjV(v) == [st |-> "val", v |-> v, sess |-> FALSE, seen |-> FALSE]   \* holds another (possibly invalid) value, built by the scenario
 ObjS(v) == [st |-> "val", v |-> v, sess |-> FALSE, seen |-> TRUE]    \* holds whatever a decoder of arbitrary octets reported (C04)
@@ -73,6 +74,8 @@ OpDecode(slot, syn) == [a |-> "Decode", slot |-> slot, syn |-> syn]     \* decod
 OpDecodeAny(slot, syn, bytes, style) == [a |-> "DecodeAny", slot |-> slot, syn |-> syn, bytes |-> bytes, style |-> style]  \* arbitrary octets (C04)
 OpDecodeInto(slot, syn, bytes) == [a |-> "DecodeInto", slot |-> slot, syn |-> syn, bytes |-> bytes]   \* into the existing (reset) structure
 OpEncodeCb(slot, syn, failat) == [a |-> "EncodeCb", slot |-> slot, syn |-> syn, failat |-> failat]  \* asn_encode, callback failing at its failat-th call
+\* asn_encode through a callback failing at its k-th call only ("once") or from its k-th call on ("from"), for every k
+OpEncodeCbSweep(slot, syn, mode) == [a |-> "EncodeCbSweep", slot |-> slot, syn |-> syn, mode |-> mode]
 OpEncodeBuf(slot, syn, rel) == [a |-> "EncodeBuf", slot |-> slot, syn |-> syn, rel |-> rel]          \* asn_encode_to_buffer, size relative to the full length
 OpBuildZero(slot) == [a |-> "BuildZero", slot |-> slot]     \* a zero-initialised structure (CHOICE unselected, members absent)
 \* the octets another build of the same module (other code-generation options, C13) produced for the
@@ -132,11 +135,11 @@ DecodeCall(op, consumed) ==
 
 \* obs: what the trace binds (logged octets of an opaque encoder, logged consumed count);
 \* the generator explores with the neutral observation GenObs
-GenObs == [bytes |-> OpaqueWire, consumed |-> 0, allocfailed |-> 0, rc |-> "FAIL", wf |-> FALSE, val |-> 0]
+GenObs == [bytes |-> OpaqueWire, consumed |-> 0, allocfailed |-> 0, rc |-> "FAIL", wf |-> FALSE, val |-> 0, bad |-> FALSE]
 Vouched(o) == o.st = "val" /\ (o.sess \/ (~o.seen /\ Valid(RawEnv, TypeOf(sc), o.v)))
 \* did an armed allocation failure fire inside this call?  (logged by the allocator wrapper)
 Fired(obs) == fault > 0 /\ obs.allocfailed > 0
-Lib(op) == op.a \in {"Encode", "EncodeCb", "EncodeBuf", "Decode", "DecodeLit", "DecodeAny", "DecodeInto", "DecodeCall",
+Lib(op) == op.a \in {"Encode", "EncodeCb", "EncodeBuf", "EncodeCbSweep", "Decode", "DecodeLit", "DecodeAny", "DecodeInto", "DecodeCall",
                      "Free", "Reset", "Print", "Check", "Compare"}
 \* what a decode leaves in the slot when the specification cannot predict it: the logged value if
 \* the decoder said OK and the projection is well-formed, else an allocated structure of unknown content
@@ -160,10 +163,10 @@ Step(obs) ==
         ELSE
         CASE op.a \in {"Build", "BuildRep"} -> Build(op)
           [] op.a = "BuildVal" -> obj' = [obj EXCEPT ![op.slot] = ObjV(op.val)] /\ UNCHANGED <<wire, dec>>
-          [] op.a = "BuildZero" -> obj' = [obj EXCEPT ![op.slot] = RawObj] /\ UNCHANGED <<wire, dec>>
+          [] op.a = "BuildZero" -> obj' = [obj EXCEPT ![op.slot] = IF obs.bad THEN BadObj ELSE RawObj] /\ UNCHANGED <<wire, dec>>
           [] op.a = "Arm" -> UNCHANGED <<obj, wire, dec>>
           [] op.a = "Adopt" -> wire' = [wire EXCEPT ![op.syn] = op.bytes] /\ UNCHANGED <<obj, dec>>
-          [] op.a \in {"Check", "Print", "EncodeCb", "EncodeBuf"} -> obj[op.slot].st # "none" /\ UNCHANGED <<obj, wire, dec>>
+          [] op.a \in {"Check", "Print", "EncodeCb", "EncodeBuf", "EncodeCbSweep"} -> obj[op.slot].st # "none" /\ UNCHANGED <<obj, wire, dec>>
           [] op.a = "Encode" -> IF Vouched(obj[op.slot])
                                 THEN Encode(op, obs.bytes)
                                 ELSE \* a structure the specification does not vouch for: the result is only logged
@@ -195,7 +198,9 @@ EIO == 5
 AllGoneAfter(op) == /\ \A i \in Slots : i # op.slot => obj[i].st = "none"
                     /\ (dec.st = "active" => dec.slot = op.slot)
 DecodeOps == {"Decode", "DecodeLit", "DecodeAny", "DecodeInto", "DecodeCall"}
-EncodeOps == {"Encode", "EncodeCb", "EncodeBuf"}
+EncodeOps == {"Encode", "EncodeCb", "EncodeBuf", "EncodeCbSweep"}
+\* C07: a structure that denotes no value has no encoding: -1 with an errno, nothing else
+Unencodable(op, ev) == When(ev.ret >= 0, "unencodable-structure-encoded") \cup When(ev.ret < 0 /\ ev.errno = 0, "failure-without-errno")
 
 \* an armed allocation failure fired inside the call: it must fail or succeed cleanly (C14)
 LenientFaults(op, ev) ==
@@ -217,6 +222,7 @@ StrictFaults(op, ev) ==
     [] op.a \in {"Arm", "Adopt"} -> {}
     [] op.a = "Encode" ->
          IF obj[op.slot].st = "none" THEN {"no-object"}
+         ELSE IF obj[op.slot].st = "bad" THEN Unencodable(op, ev) \cup When(ev.buf, "buffer-returned-on-failure")
          ELSE IF ~Vouched(obj[op.slot])
          THEN \* C07: a structure that may not be encodable fails with -1 and an errno and no buffer, or encodes
               (IF ev.ret < 0 THEN When(ev.errno = 0, "failure-without-errno") \cup When(ev.buf, "buffer-returned-on-failure")
@@ -225,9 +231,20 @@ StrictFaults(op, ev) ==
          ELSE When(ev.ret # Len(ev.bytes), "ret-differs")
               \cup When(ev.ret <= 0 /\ op.syn # "OER", "empty-encoding")
               \cup When(ev.bytes # EncodeWire(op, ev.bytes), "bytes-differ")
+    [] op.a = "EncodeCbSweep" ->
+         \* C07 for every callback index: a run whose callback failed reports -1 / EIO; a run whose callback was never
+         \* asked to fail (the failing index lies beyond its calls) reports the undisturbed size; no run leaves a block behind
+         IF obj[op.slot].st = "none" THEN {"no-object"}
+         ELSE IF obj[op.slot].st = "bad" THEN When(ev.ret0 >= 0, "unencodable-structure-encoded")
+         ELSE IF ev.ret0 < 0 THEN When(Vouched(obj[op.slot]), "encode-failed")
+         ELSE When(\E i \in DOMAIN ev.runs : ev.runs[i].failed /\ ev.runs[i].ret # -1, "callback-failure-not-reported")
+              \cup When(\E i \in DOMAIN ev.runs : ev.runs[i].failed /\ ev.runs[i].ret = -1 /\ ev.runs[i].errno # EIO, "errno-not-EIO")
+              \cup When(\E i \in DOMAIN ev.runs : ~ev.runs[i].failed /\ ev.runs[i].ret # ev.ret0, "size-differs-between-runs")
+              \cup When(\E i \in DOMAIN ev.runs : ev.runs[i].leak # 0, "failed-encode-leaks")
     [] op.a = "EncodeCb" ->
          \* C07: reported size = octets delivered; a failing callback => -1 / EIO
          IF obj[op.slot].st = "none" THEN {"no-object"}
+         ELSE IF obj[op.slot].st = "bad" THEN Unencodable(op, ev)
          ELSE IF ev.failed THEN When(ev.ret # -1, "callback-failure-not-reported") \cup When(ev.ret = -1 /\ ev.errno # EIO, "errno-not-EIO")
          ELSE IF ev.ret < 0 THEN (IF Vouched(obj[op.slot]) THEN {"encode-failed"} ELSE When(ev.errno = 0, "failure-without-errno"))
          ELSE When(ev.ret # ev.delivered, "size-not-delivered")
@@ -235,6 +252,7 @@ StrictFaults(op, ev) ==
     [] op.a = "EncodeBuf" ->
          \* C07: never writes beyond the buffer; the same full size for every buffer size; the prefix that fits
          IF obj[op.slot].st = "none" THEN {"no-object"}
+         ELSE IF obj[op.slot].st = "bad" THEN Unencodable(op, ev) \cup When(~ev.canary, "wrote-beyond-buffer")
          ELSE When(~ev.canary, "wrote-beyond-buffer")
               \cup (IF ev.ret < 0 THEN (IF Vouched(obj[op.slot]) THEN {"encode-failed"} ELSE When(ev.errno = 0, "failure-without-errno"))
                     ELSE When(Vouched(obj[op.slot]) /\ wire[op.syn] # NoWire /\ Canonical(op.syn) /\ ev.ret # Len(wire[op.syn]), "size-depends-on-buffer")
